@@ -50,10 +50,30 @@ Lemma goods_trans c1 c2 c3 : goods c1 c2 -> goods c2 c3 -> goods c1 c3.
 Proof. intros [W1 S1] [W2 S2]. split; auto. eapply same_trans; eauto. Qed.
 
 (* ---------------------------------------------------------------- evolves: automation *)
-Ltac ev_tac :=
-  constructor; cbn; auto; try congruence;
+Lemma in_tl {A} (x : A) l : In x (tl l) -> In x l.
+Proof. destruct l; cbn; auto. Qed.
+
+Ltac st_tac :=
   unfold nolisten; cbn; intros;
   repeat match goal with H : _ \/ _ |- _ => destruct H end; try congruence; intuition congruence.
+(* queue conditions: the queue is unchanged, shorter, or the socket is not a datagram socket *)
+Ltac q_tac :=
+  intros; try congruence;
+  repeat match goal with
+  | H : In _ (_ ++ _) |- _ => apply in_app_or in H; destruct H as [H|H]
+  | H : In _ [] |- _ => destruct H
+  | H : False |- _ => destruct H
+  | H : _ \/ False |- _ => destruct H as [H|[]]
+  | H : In _ [_] |- _ => destruct H as [H|[]]
+  | H : In _ (tl _) |- _ => apply in_tl in H
+  end;
+  try (match goal with Q : s_recvq ?s = _ :: _ |- _ => rewrite Q end; cbn; auto; fail);
+  try (match goal with Q : s_sendq ?s = _ :: _ |- _ => rewrite Q end; cbn; auto; fail);
+  auto.
+Ltac ev_tac :=
+  constructor; cbn;
+  [ first [reflexivity | congruence | auto] | first [reflexivity | congruence | auto] | first [reflexivity | congruence | auto]
+  | st_tac | st_tac | q_tac | q_tac ].
 
 Lemma goods_put c i s s' : wf c -> get_sock c i = Some s -> evolves s s' -> goods c (put_sock c i s').
 Proof. intros W G E. split; [eapply wf_put_evolve; eauto | eapply same_put; eauto; apply E]. Qed.
@@ -169,7 +189,7 @@ Lemma base_close_evolves s : evolves s (base_close s).
 Proof. ev_tac. Qed.
 Lemma sock_close_some s s' : sock_close s = Some s' -> evolves s s' /\ s_state s' = StShutdown.
 Proof.
-  unfold sock_close. destruct (s_type s); try (intro H; inversion H; split; [apply base_close_evolves | reflexivity]).
+  unfold sock_close. destruct (s_type s) eqn:Ty; try (intro H; inversion H; split; [apply base_close_evolves | reflexivity]).
   destruct (sstate_eqb (s_state s) StEstablished && _) eqn:E.
   - cbn [s_recvq set_sendq set_state]. destruct (s_recvq s); [discriminate|]. intro H; inversion H.
     split; [ev_tac | reflexivity].
@@ -178,13 +198,13 @@ Qed.
 Lemma sock_close_none s : sock_close s = None ->
   s_type s = TDlc /\ s_state s = StEstablished /\ s_addr s <> None /\ s_recvq s = [] /\ evolves s (sock_close_wait s).
 Proof.
-  unfold sock_close. destruct (s_type s); try discriminate.
+  unfold sock_close. destruct (s_type s) eqn:Ty; try discriminate.
   destruct (sstate_eqb (s_state s) StEstablished && _) eqn:E; [|discriminate].
   apply andb_true_iff in E. destruct E as [E1 E2].
   assert (St : s_state s = StEstablished) by (destruct (s_state s); auto; discriminate).
   cbn [s_recvq set_sendq set_state]. destruct (s_recvq s) eqn:Q; [|discriminate]. intros _.
   split; [reflexivity|]. split; [auto|]. split; [destruct (s_addr s); [discriminate | discriminate E2]|]. split; [reflexivity|].
-  unfold sock_close_wait. constructor; cbn; auto; intros H; try congruence. unfold nolisten. auto.
+  unfold sock_close_wait. ev_tac.
 Qed.
 
 Lemma close_tail_good c i s s' a : wf c -> get_sock c i = Some s -> s_addr s = Some a ->
@@ -200,7 +220,14 @@ Proof.
   intro W. unfold do_close. destruct (get_sock c i) as [s|] eqn:G; [|apply good_refl; auto].
   destruct (s_pend s); try (apply good_refl; auto).
   destruct (s_addr s) as [a|] eqn:A.
-  - destruct (sap_get c a) eqn:SG; try (apply good_refl; auto).
+  - assert (PL : good c (fst (match sock_close s with
+                              | Some s' => ok (put_sock c i s') OUnit
+                              | None => ok (put_sock c i (sock_close_wait s)) OPending
+                              end))).
+    { destruct (sock_close s) as [s'|] eqn:SC; cbn; apply goods_good.
+      - destruct (sock_close_some _ _ SC). eapply goods_put; eauto.
+      - destruct (sock_close_none _ SC) as (_ & _ & _ & _ & E). eapply goods_put; eauto. }
+    destruct (sap_get c a) eqn:SG; try exact PL.
     destruct (sock_close s) as [s'|] eqn:SC; cbn.
     + destruct (sock_close_some _ _ SC). apply goods_good. eapply close_tail_good; eauto.
     + destruct (sock_close_none _ SC) as (_ & _ & _ & _ & E). apply goods_good. eapply goods_put; eauto.
@@ -214,6 +241,12 @@ Lemma autobind_then_put c i s c' s' s'' : wf c -> get_sock c i = Some s -> autob
   evolves s' s'' -> good c (put_sock c' i s'').
 Proof.
   intros W G AB E. destruct (autobind_good _ _ _ _ _ W G AB) as ((W' & S') & G' & _).
+  eapply good_goods; [split; eauto|]. eapply goods_put; eauto.
+Qed.
+Lemma autobind_then_put' c i s c' s' s'' : wf c -> get_sock c i = Some s -> autobind c i s = (c', Some s') ->
+  ((exists a, s_addr s' = Some a) -> s_type s' = s_type s -> evolves s' s'') -> good c (put_sock c' i s'').
+Proof.
+  intros W G AB E. destruct (autobind_good _ _ _ _ _ W G AB) as ((W' & S') & G' & (T & _) & A & _).
   eapply good_goods; [split; eauto|]. eapply goods_put; eauto.
 Qed.
 Lemma autobind_only c i s c' os : wf c -> get_sock c i = Some s -> autobind c i s = (c', os) -> good c c'.
@@ -256,9 +289,7 @@ Proof.
     rewrite LEN in INS. fold client. rewrite INS. cbn. split; auto.
     eapply step_same; [apply same_step; exact S1|].
     intros j sj Gj. exists sj. split; auto. rewrite OTH; auto. apply get_sock_lt in Gj. lia.
-  - cbn. apply goods_good. split.
-    + apply (wf_new_sock c1); auto.
-    + eapply same_trans; [exact S1 | apply same_new].
+  - cbn. apply goods_good. split; auto.
 Qed.
 
 Lemma do_connect_good c i d : wf c -> good c (fst (do_connect c i d)).
@@ -266,7 +297,7 @@ Proof.
   intro W. unfold do_connect. destruct (get_sock c i) as [s|] eqn:G; [|apply good_refl; auto].
   destruct (s_pend s); try (apply good_refl; auto).
   destruct (autobind c i s) as [c' [s'|]] eqn:AB; [|eapply autobind_only; eauto].
-  destruct (s_type s'); [eapply autobind_only; eauto | |].
+  destruct (s_type s') eqn:Ty'; [eapply autobind_only; eauto | |].
   - destruct (s_state s'); try solve [eapply autobind_only; eauto];
       (destruct d; cbn; [eapply autobind_then_put; eauto; ev_tac | eapply autobind_only; eauto]).
   - destruct (s_state s') eqn:St; try solve [eapply autobind_only; eauto].
@@ -277,20 +308,23 @@ Lemma do_sendto_good c i m d : wf c -> good c (fst (do_sendto c i m d)).
 Proof.
   intro W. unfold do_sendto. destruct (get_sock c i) as [s|] eqn:G; [|apply good_refl; auto].
   destruct (s_pend s); try (apply good_refl; auto).
-  destruct (s_type s); try (apply good_refl; auto).
+  destruct (s_type s) eqn:Ty; try (apply good_refl; auto).
   - destruct (autobind c i s) as [c' [s'|]] eqn:AB; [|eapply autobind_only; eauto].
-    destruct (s_state s'); try solve [eapply autobind_only; eauto];
+    destruct (s_state s') eqn:St'; try solve [eapply autobind_only; eauto];
     (match goal with |- context [if ?b then _ else _] => destruct b end; [eapply autobind_only; eauto|];
-     destruct (link_miu <? len m); [eapply autobind_only; eauto|]; cbn; eapply autobind_then_put; eauto; ev_tac).
+     destruct (link_miu <? len m); [eapply autobind_only; eauto|]; cbn; eapply autobind_then_put'; eauto;
+     intros (a & A) T; rewrite A; constructor; cbn; auto; try st_tac;
+     intros _ p H; apply in_app_or in H; destruct H as [H|[H|[]]]; auto; right; subst p; exists d, m, a; auto).
   - destruct (s_state s); apply good_refl; auto.
 Qed.
 
 Lemma do_rawsend_good c i p : wf c -> good c (fst (do_rawsend c i p)).
 Proof.
   intro W. unfold do_rawsend. destruct (get_sock c i) as [s|] eqn:G; [|apply good_refl; auto].
-  destruct (s_type s); try (apply good_refl; auto).
+  destruct (s_type s) eqn:Ty; try (apply good_refl; auto).
   destruct (autobind c i s) as [c' [s'|]] eqn:AB; [|eapply autobind_only; eauto].
-  destruct (s_state s'); try solve [eapply autobind_only; eauto]; cbn; eapply autobind_then_put; eauto; ev_tac.
+  destruct (s_state s') eqn:St'; try solve [eapply autobind_only; eauto]; cbn; eapply autobind_then_put'; eauto;
+    intros _ T; ev_tac.
 Qed.
 
 Lemma do_recvfrom_good c i : wf c -> good c (fst (do_recvfrom c i)).
@@ -298,17 +332,21 @@ Proof.
   intro W. unfold do_recvfrom. destruct (get_sock c i) as [s|] eqn:G; [|apply good_refl; auto].
   destruct (s_pend s); try (apply good_refl; auto).
   match goal with |- context [if ?b then _ else _] => destruct b end; [apply good_refl; auto|].
-  assert (NC : forall q', good c (put_sock c i (set_recvq s q'))).
-  { intro q'. apply goods_good. eapply goods_put; eauto. ev_tac. }
-  destruct (s_type s).
-  - destruct (s_state s); try (apply good_refl; auto); (destruct (s_recvq s); [apply good_refl; auto | cbn; apply NC]).
+  assert (EV : forall q', (forall x, In x q' -> In x (s_recvq s)) -> evolves s (set_recvq s q')).
+  { intros q' Sub. constructor; cbn; auto. }
+  assert (NC : forall q', (forall x, In x q' -> In x (s_recvq s)) -> good c (put_sock c i (set_recvq s q'))).
+  { intros q' Sub. apply goods_good. eapply goods_put; eauto. }
+  destruct (s_type s) eqn:Ty.
   - destruct (s_state s); try (apply good_refl; auto);
-      (destruct (s_recvq s) as [|p q]; [apply good_refl; auto | destruct p; cbn; apply NC]).
+      (destruct (s_recvq s) as [|p q] eqn:Q; [apply good_refl; auto | cbn; apply NC; intros x Hx; right; exact Hx]).
   - destruct (s_state s); try (apply good_refl; auto);
-      (destruct (s_recvq s) as [|p q]; [apply good_refl; auto |]; destruct p; try (cbn; apply NC);
+      (destruct (s_recvq s) as [|p q] eqn:Q; [apply good_refl; auto | destruct p; cbn; apply NC; intros x Hx; right; exact Hx]).
+  - destruct (s_state s); try (apply good_refl; auto);
+      (destruct (s_recvq s) as [|p q] eqn:Q; [apply good_refl; auto |];
+       destruct p; try (cbn; apply NC; intros x Hx; right; exact Hx);
        destruct (sock_close (set_recvq s q)) as [s'|] eqn:SC; [|apply good_refl; auto]; cbn;
        destruct (sock_close_some _ _ SC) as [E _]; apply goods_good; eapply goods_put; eauto;
-       eapply evolves_trans; [|exact E]; ev_tac).
+       eapply evolves_trans; [|exact E]; apply EV; intros x Hx; right; exact Hx).
 Qed.
 
 Lemma do_rcvbuf_good c i v : wf c -> good c (fst (do_rcvbuf c i v)).
@@ -393,13 +431,13 @@ Proof. induction l as [|x t IH]; cbn; [discriminate|].
 Lemma finish_connect_good c i s s' : wf c -> get_sock c i = Some s -> s_state s = StConnect -> evolves s s' ->
   s_state s' = StConnect -> goods c (fst (finish_connect c i s')).
 Proof.
-  intros W G St E St'. unfold finish_connect. destruct (s_recvq s') as [|h t]; [apply goods_refl; auto|].
+  intros W G St E St'. unfold finish_connect. destruct (s_recvq s') as [|h t] eqn:Q; [apply goods_refl; auto|].
   destruct h; try (apply goods_refl; auto); cbn; eapply goods_put; eauto; (eapply evolves_trans; [exact E|]); ev_tac.
 Qed.
 
 Lemma finish_close_good c i s s' : wf c -> get_sock c i = Some s -> evolves s s' -> goods c (fst (finish_close c i s')).
 Proof.
-  intros W G E. unfold finish_close. destruct (s_recvq s') as [|h t]; [apply goods_refl; auto|]. cbn.
+  intros W G E. unfold finish_close. destruct (s_recvq s') as [|h t] eqn:Q; [apply goods_refl; auto|]. cbn.
   set (s2 := set_pend (base_close (set_recvq s' t)) PdNone).
   assert (E2 : evolves s s2) by (eapply evolves_trans; [exact E|]; unfold s2; ev_tac).
   destruct (s_addr s') as [a|] eqn:A.
@@ -407,29 +445,33 @@ Proof.
   - eapply goods_put; eauto.
 Qed.
 
-Lemma sock_enqueue_good c i s p : wf c -> get_sock c i = Some s -> goods c (fst (sock_enqueue c i s p)).
+Lemma sock_enqueue_good c i s p : wf c -> get_sock c i = Some s -> s_addr s = Some (pdu_dsap p) ->
+  goods c (fst (sock_enqueue c i s p)).
 Proof.
-  intros W G. unfold sock_enqueue.
+  intros W G AD. unfold sock_enqueue.
   assert (B : forall s0, (if len (s_recvq s0) <? s_rbuf s0 then Some (set_recvq s0 (s_recvq s0 ++ [p])) else None) = None \/
-                         exists q, (if len (s_recvq s0) <? s_rbuf s0 then Some (set_recvq s0 (s_recvq s0 ++ [p])) else None) = Some (set_recvq s0 q)).
+                         (if len (s_recvq s0) <? s_rbuf s0 then Some (set_recvq s0 (s_recvq s0 ++ [p])) else None) = Some (set_recvq s0 (s_recvq s0 ++ [p]))).
   { intro s0. destruct (len (s_recvq s0) <? s_rbuf s0); eauto. }
   destruct (s_type s) eqn:Ty.
-  - destruct (B s) as [-> | (q & ->)]; cbn; [apply goods_refl; auto | eapply goods_put; eauto; ev_tac].
+  - destruct (B s) as [-> | ->]; cbn; [apply goods_refl; auto | eapply goods_put; eauto; ev_tac].
   - destruct p; try (apply goods_refl; auto).
     destruct (link_miu <? len data); [apply goods_refl; auto|].
-    destruct (B s) as [-> | (q & ->)]; cbn; [apply goods_refl; auto | eapply goods_put; eauto; ev_tac].
+    destruct (B s) as [-> | ->]; cbn; [apply goods_refl; auto | eapply goods_put; eauto].
+    constructor; cbn; auto. intros _ x Hx. apply in_app_or in Hx. destruct Hx as [Hx|[Hx|[]]]; auto.
+    right. subst x. exists d, s0, data. auto.
   - destruct (negb (is_dlc_pdu p)) eqn:ND.
     + destruct (sock_close s) as [s'|] eqn:SC; [|apply goods_refl; auto].
       destruct (sock_close_some _ _ SC) as [E St].
       set (s2 := set_pend (set_sendq s' _) PdNone).
-      assert (E2 : evolves s s2) by (eapply evolves_trans; [exact E|]; unfold s2; ev_tac).
+      assert (E2 : evolves s s2).
+      { eapply evolves_trans; [exact E|]. assert (T' : s_type s' = TDlc) by (rewrite (ev_type _ _ E); auto). unfold s2; ev_tac. }
       destruct (s_pend s); cbn; try (eapply goods_put; eauto).
       destruct (s_addr s) as [a|] eqn:A; [|eapply goods_put; eauto].
       eapply close_tail_good; eauto.
     + destruct (s_state s) eqn:St; try (apply goods_refl; auto).
       * cbn. eapply goods_put; eauto; ev_tac.
       * destruct (is_connect p); [|apply goods_refl; auto].
-        destruct (B s) as [-> | (q & ->)]; cbn; eapply goods_put; eauto; ev_tac.
+        destruct (B s) as [-> | ->]; cbn; eapply goods_put; eauto; ev_tac.
       * assert (K : forall p', goods c (fst (let s' := set_recvq s (s_recvq s ++ [p']) in
                         match s_pend s with
                         | PdConnect => let '(c', evs) := finish_connect c i s' in (c', Ok (EvEnq i p' :: evs))
@@ -446,14 +488,18 @@ Proof.
         change c1 with (fst (c1, evs)). rewrite <- FC. eapply finish_close_good; eauto. ev_tac.
 Qed.
 
-Lemma sap_enqueue_good c a l sl p : wf c -> sap_get c a = Sap l sl -> goods c (fst (sap_enqueue c a l sl p)).
+Lemma sap_enqueue_good c a l sl p : wf c -> sap_get c a = Sap l sl -> a = pdu_dsap p -> goods c (fst (sap_enqueue c a l sl p)).
 Proof.
-  intros W SG. unfold sap_enqueue. destruct (is_connect p).
+  intros W SG EA. unfold sap_enqueue.
+  assert (AD : forall i s, In i l -> get_sock c i = Some s -> s_addr s = Some (pdu_dsap p)).
+  { intros i s Li G. assert (L : listed c a i) by (unfold listed; rewrite SG; auto).
+    destruct (wf_listed_addr _ W a i L) as (s0 & G0 & A0). congruence. }
+  destruct (is_connect p).
   - destruct (pick_sock c l _) as [[i s]|] eqn:P.
-    + apply pick_sock_some in P. destruct P as (_ & G & _). apply sock_enqueue_good; auto.
+    + apply pick_sock_some in P. destruct P as (Li & G & _). apply sock_enqueue_good; eauto.
     + cbn. eapply goods_sendl; eauto.
   - destruct (pick_sock c l _) as [[i s]|] eqn:P.
-    + apply pick_sock_some in P. destruct P as (_ & G & _). apply sock_enqueue_good; auto.
+    + apply pick_sock_some in P. destruct P as (Li & G & _). apply sock_enqueue_good; eauto.
     + destruct (is_dlc_pdu p); cbn; [eapply goods_sendl; eauto | apply goods_refl; auto].
 Qed.
 
